@@ -77,6 +77,24 @@ impl StringView {
     }
 }
 
+/// Verification hook: counts input operations so that a monitor can bound the work of the parser.
+#[cfg(feature = "verif")]
+pub mod verif {
+    use std::cell::Cell;
+    thread_local! {
+        pub static OPS: Cell<u64> = const { Cell::new(0) };
+        pub static BUDGET: Cell<u64> = const { Cell::new(u64::MAX) };
+    }
+    pub fn tick() {
+        let n = OPS.get() + 1;
+        OPS.set(n);
+        if n > BUDGET.get() {
+            BUDGET.set(u64::MAX);
+            panic!("VERIF_PARSER_BUDGET_EXCEEDED");
+        }
+    }
+}
+
 impl InputTrait for StringView {
     type Output = char;
 
@@ -85,14 +103,20 @@ impl InputTrait for StringView {
     }
 
     fn set_position(&mut self, position: usize) {
+        #[cfg(feature = "verif")]
+        verif::tick();
         self.index = position;
     }
 
     fn peek(&self) -> char {
+        #[cfg(feature = "verif")]
+        verif::tick();
         self.char_at(self.index)
     }
 
     fn read(&mut self) -> char {
+        #[cfg(feature = "verif")]
+        verif::tick();
         let c = self.char_at(self.index);
         self.index += 1;
         c
